@@ -211,22 +211,53 @@ def decoded : Val → Bytes
   | .text b => b
   | .num b => b
 
-/-- All bytes of a value are plain and differ from the line terminator's first byte; the value
-is not the NULL spelling. -/
+/-- No byte of the value is the enclosure, the escape or the line terminator's first byte; the
+field terminator's first byte occurs only in values that are written enclosed; the value is not the
+NULL spelling. -/
 def PlainVal (o : Opts) (v : Val) : Prop :=
-  ∀ b, valBytes v = some b → (∀ x ∈ b, plainByte o x ∧ x ≠ o.lt.headD 0) ∧ b ≠ NULLs
+  ∀ b, valBytes v = some b →
+    (∀ x ∈ b, x ∉ o.enc ∧ x ∉ o.esc ∧ x ≠ o.lt.headD 0 ∧ (x = o.ft.headD 0 → enclosed o v = true)) ∧ b ≠ NULLs
+
+/-- Inside an enclosure any byte other than the enclosure and the escape is copied — the field
+terminator included. -/
+theorem fieldLoop_inEnc1 (o : Opts) (w : WF o) (nlt : Bool) (ch : UInt8) (rest : Bytes) (st : PS)
+    (hin : st.inEnc = true) (h1 : ch ∉ o.enc) (h2 : ch ∉ o.esc) :
+    fieldLoop o nlt 0 (ch :: rest) st = fieldLoop o nlt 0 rest { st with cur := ch :: st.cur } := by
+  have e1 := enc_test_false o ch w.enc_le h1
+  have e2 := esc_test_false o ch w.esc_le h2
+  have e2' : (!o.esc.isEmpty && !(!o.enc.isEmpty && !o.esc.isEmpty && o.enc == o.esc) && ch == o.esc.headD 0) = false := by
+    cases hh : (!o.esc.isEmpty && !(!o.enc.isEmpty && !o.esc.isEmpty && o.enc == o.esc) && ch == o.esc.headD 0) with
+    | false => rfl
+    | true =>
+      simp only [Bool.and_eq_true] at hh
+      rw [hh.1.1, hh.2] at e2
+      simp at e2
+  rw [fieldLoop.eq_def]
+  simp only [e1, e2', hin, Bool.false_and, Bool.false_eq_true, if_false, Bool.not_true]
+
+theorem fieldLoop_inEnc (o : Opts) (w : WF o) (nlt : Bool) (s tail : Bytes) (st : PS)
+    (hin : st.inEnc = true) (h : ∀ x ∈ s, x ∉ o.enc ∧ x ∉ o.esc) :
+    fieldLoop o nlt 0 (s ++ tail) st = fieldLoop o nlt 0 tail { st with cur := s.reverse ++ st.cur } := by
+  induction s generalizing st with
+  | nil => simp
+  | cons c cs ih =>
+    rw [List.cons_append, fieldLoop_inEnc1 o w nlt c _ st hin (h c (by simp)).1 (h c (by simp)).2,
+      ih { st with cur := c :: st.cur } hin (fun x hx => h x (by simp [hx]))]
+    simp
 
 theorem fieldLoop_enclosed (o : Opts) (w : WF o) (b tail : Bytes) (F : List Bytes)
-    (hb : ∀ x ∈ b, plainByte o x) (htail : tail = [] ∨ ∃ t, tail = o.ft ++ t) :
+    (hb : ∀ x ∈ b, x ∉ o.enc ∧ x ∉ o.esc) (hb' : o.enc = [] → ∀ x ∈ b, x ≠ o.ft.headD 0)
+    (htail : tail = [] ∨ ∃ t, tail = o.ft ++ t) :
     fieldLoop o true 0 (o.enc ++ b ++ o.enc ++ tail) { fields := F, cur := [], inEnc := false }
       = fieldLoop o true 0 tail { fields := F, cur := b.reverse, inEnc := false } := by
   match henc : o.enc, w.enc_le with
   | [], _ =>
-    have := fieldLoop_plain o w true b tail { fields := F, cur := [], inEnc := false } hb
+    have := fieldLoop_plain o w true b tail { fields := F, cur := [], inEnc := false }
+      (fun x hx => ⟨(hb x hx).1, (hb x hx).2, hb' henc x hx⟩)
     simpa using this
   | [e], _ =>
     have h1 := fieldLoop_open o true e (b ++ [e] ++ tail) F henc
-    have h2 := fieldLoop_plain o w true b ([e] ++ tail) { fields := F, cur := [], inEnc := true } hb
+    have h2 := fieldLoop_inEnc o w true b ([e] ++ tail) { fields := F, cur := [], inEnc := true } rfl hb
     have h3 := fieldLoop_close o w e tail F b.reverse henc htail
     simp only [List.append_assoc, List.cons_append, List.nil_append, List.append_nil] at h1 h2 h3 ⊢
     rw [h1, h2, h3]
@@ -250,20 +281,32 @@ theorem fieldLoop_render (o : Opts) (w : WF o) (v : Val) (hv : PlainVal o v) (ta
     | _ :: _ :: _, hh => simp at hh
   | text b =>
     obtain ⟨hb, _⟩ := hv b rfl
-    have hl : o.lt.headD 0 ∉ b := fun h => (hb _ h).2 rfl
+    have hl : o.lt.headD 0 ∉ b := fun h => (hb _ h).2.2.1 rfl
     simp only [renderVal, decoded]
     have hr : (if o.lt.isEmpty then b else replaceGo o.lt (o.esc ++ o.lt) 0 b) = b := by
       split
       · rfl
       · exact replaceGo_plain o.lt _ b hl w.lt_ne
     rw [hr]
-    exact fieldLoop_enclosed o w b tail F (fun x hx => (hb x hx).1) htail
+    refine fieldLoop_enclosed o w b tail F (fun x hx => ⟨(hb x hx).1, (hb x hx).2.1⟩) ?_ htail
+    intro henc x hx hft
+    have := (hb x hx).2.2.2 hft
+    simp [enclosed, henc] at this
   | num b =>
     obtain ⟨hb, _⟩ := hv b rfl
     simp only [renderVal, decoded]
     split
-    · exact fieldLoop_enclosed o w b tail F (fun x hx => (hb x hx).1) htail
-    · have := fieldLoop_plain o w true b tail { fields := F, cur := [], inEnc := false } (fun x hx => (hb x hx).1)
+    · rename_i hopt
+      refine fieldLoop_enclosed o w b tail F (fun x hx => ⟨(hb x hx).1, (hb x hx).2.1⟩) ?_ htail
+      intro henc x hx hft
+      have := (hb x hx).2.2.2 hft
+      simp [enclosed, henc] at this
+    · rename_i hopt
+      have := fieldLoop_plain o w true b tail { fields := F, cur := [], inEnc := false }
+        (fun x hx => ⟨(hb x hx).1, (hb x hx).2.1, fun hft => by
+          have := (hb x hx).2.2.2 hft
+          simp [enclosed] at this
+          simp [this.2] at hopt⟩)
       simpa using this
 
 /-- The field loop over a whole rendered row (at least one value). -/
@@ -289,4 +332,321 @@ theorem fieldLoop_row (o : Opts) (w : WF o) (v : Val) (vs : List Val)
     rw [h3]
     simp [List.dropLast]
 
+theorem dropToAfter_prefix (p rest : Bytes) (hp : p ≠ []) : dropToAfter p (p ++ rest) = some rest := by
+  match p, hp with
+  | c :: cs, _ =>
+    have := isPrefixOf_append_self (c :: cs) rest
+    simp only [List.cons_append] at this ⊢
+    simp [dropToAfter, this]
+
+theorem parseLinePrefix_own (ls rest : Bytes) : parseLinePrefix ls (ls ++ rest) = rest := by
+  unfold parseLinePrefix
+  split
+  · rename_i h; simp at h; simp [h]
+  · rename_i h; rw [dropToAfter_prefix ls rest (by simpa using h)]
+
+theorem parseLine_row (o : Opts) (w : WF o) (v : Val) (vs : List Val) (hv : ∀ x ∈ v :: vs, PlainVal o x) :
+    parseLine o (writeRow o (v :: vs)) = some ((v :: vs).map decoded) := by
+  have hlt := w.lt_ne
+  have hrow := fieldLoop_row o w v vs hv []
+  unfold parseLine writeRow
+  simp only [List.append_assoc, parseLinePrefix_own]
+  have hne : (joinFields o.ft ((v :: vs).map (renderVal o)) ++ o.lt).isEmpty = false := by
+    simp [hlt]
+  have hsuf : o.lt.isSuffixOf (joinFields o.ft ((v :: vs).map (renderVal o)) ++ o.lt) = true := by
+    simp [List.isSuffixOf_iff_suffix]
+  have hq := encEqEsc_false o w
+  simp only [hne, hsuf, Bool.false_eq_true, if_false, if_true, Bool.true_or, List.length_append,
+    Nat.add_sub_cancel, List.take_left']
+  rw [hrow]
+  simp only [Bool.false_eq_true, if_false, List.append_nil, List.reverse_cons, List.reverse_reverse]
+  have := List.dropLast_concat_getLast (l := v :: vs) (by simp)
+  conv => rhs; rw [← this]
+  simp
+
+/-! ### Line splitting -/
+
+theorem splitLines_skip (lt l rest cur : Bytes) :
+    splitLines lt l.length (l ++ rest) cur = splitLines lt 0 rest cur := by
+  induction l with
+  | nil => rfl
+  | cons c cs ih => simpa [splitLines] using ih
+
+theorem splitLines_line (lt content rest cur : Bytes) (hl : lt ≠ []) (hc : lt.headD 0 ∉ content) :
+    splitLines lt 0 (content ++ lt ++ rest) cur = (cur.reverse ++ content ++ lt) :: splitLines lt 0 rest [] := by
+  match lt, hl with
+  | l0 :: lt', _ =>
+    induction content generalizing cur with
+    | nil =>
+      have hp := isPrefixOf_append_self (l0 :: lt') rest
+      simp only [List.nil_append, List.cons_append] at hp ⊢
+      rw [splitLines, if_pos hp]
+      have := splitLines_skip (l0 :: lt') lt' rest []
+      simp only [List.length_cons, Nat.add_sub_cancel] at this ⊢
+      rw [this]
+      simp
+    | cons c cs ih =>
+      have hcl : l0 ≠ c := fun e => hc (by simp [e])
+      have hcs : (l0 :: lt').headD 0 ∉ cs := fun e => hc (by simp at e; simp [e])
+      have hp : (l0 :: lt').isPrefixOf (c :: (cs ++ (l0 :: lt') ++ rest)) = false := by
+        simp only [List.isPrefixOf, Bool.and_eq_false_imp, beq_iff_eq]
+        intro h; exact absurd h hcl
+      simp only [List.cons_append] at hp ⊢
+      rw [splitLines, if_neg (by rw [hp]; exact Bool.false_ne_true)]
+      have := ih (c :: cur) hcs
+      simp only [List.cons_append, List.append_assoc] at this ⊢
+      rw [this]
+      simp
+
+theorem notin_render (o : Opts) (w : WF o) (v : Val) (hv : PlainVal o v) : o.lt.headD 0 ∉ renderVal o v := by
+  cases v with
+  | null =>
+    simp only [renderVal]
+    split
+    · intro h; exact (w.null_plain _ h).2 rfl
+    · intro h
+      simp only [List.mem_append, List.mem_singleton] at h
+      rcases h with h | h
+      · exact w.lt_esc h
+      · exact (w.null_plain 78 (by simp [NULLs])).2 h.symm
+  | text b =>
+    obtain ⟨hb, _⟩ := hv b rfl
+    have hl : o.lt.headD 0 ∉ b := fun h => (hb _ h).2.2.1 rfl
+    simp only [renderVal]
+    have hr : (if o.lt.isEmpty then b else replaceGo o.lt (o.esc ++ o.lt) 0 b) = b := by
+      split
+      · rfl
+      · exact replaceGo_plain o.lt _ b hl w.lt_ne
+    rw [hr]
+    simp only [List.mem_append, not_or]
+    exact ⟨⟨w.lt_enc, hl⟩, w.lt_enc⟩
+  | num b =>
+    obtain ⟨hb, _⟩ := hv b rfl
+    have hl : o.lt.headD 0 ∉ b := fun h => (hb _ h).2.2.1 rfl
+    simp only [renderVal]
+    split
+    · simp only [List.mem_append, not_or]
+      exact ⟨⟨w.lt_enc, hl⟩, w.lt_enc⟩
+    · exact hl
+
+theorem notin_join (o : Opts) (w : WF o) (vs : List Val) (hv : ∀ x ∈ vs, PlainVal o x) :
+    o.lt.headD 0 ∉ joinFields o.ft (vs.map (renderVal o)) := by
+  induction vs with
+  | nil => simp [joinFields]
+  | cons v vs ih =>
+    have h1 := notin_render o w v (hv v (by simp))
+    have h2 := ih (fun x hx => hv x (by simp [hx]))
+    cases vs with
+    | nil => simpa [joinFields] using h1
+    | cons v2 vs' =>
+      simp only [List.map_cons, joinFields, List.mem_append, not_or] at h2 ⊢
+      exact ⟨⟨h1, w.lt_ft⟩, h2⟩
+
+theorem rowOf_decoded (o : Opts) (vs : List Val) (hv : ∀ x ∈ vs, PlainVal o x) :
+    rowOf vs.length (vs.map decoded) = vs.map specVal := by
+  induction vs with
+  | nil => rfl
+  | cons v vs ih =>
+    have hvv := hv v (by simp)
+    simp only [List.length_cons, List.map_cons, rowOf, ih (fun x hx => hv x (by simp [hx]))]
+    congr 1
+    cases v with
+    | null => simp [decoded, fieldVal, specVal]
+    | text b => simp [decoded, fieldVal, specVal, (hvv b rfl).2]
+    | num b => simp [decoded, fieldVal, specVal, (hvv b rfl).2]
+
+/-- The reader applied to the writer's output, for rows all of whose values are plain. -/
+theorem readFile_writeFile (o : Opts) (w : WF o) (n : Nat) (hn : 0 < n) (rows : List (List Val))
+    (hlen : ∀ r ∈ rows, r.length = n) (hv : ∀ r ∈ rows, ∀ x ∈ r, PlainVal o x) :
+    readFile o n (writeFile o rows) = specRows rows := by
+  unfold readFile
+  induction rows with
+  | nil => simp [writeFile, splitLines, readLines, specRows]
+  | cons r rs ih =>
+    have hr := hlen r (by simp)
+    match r, hr with
+    | [], h => simp at h; omega
+    | v :: vs, hr =>
+      have hvr := hv (v :: vs) (by simp)
+      have hcontent : o.lt.headD 0 ∉ o.ls ++ joinFields o.ft ((v :: vs).map (renderVal o)) := by
+        simp only [List.mem_append, not_or]
+        exact ⟨w.lt_ls, notin_join o w (v :: vs) hvr⟩
+      have hs := splitLines_line o.lt (o.ls ++ joinFields o.ft ((v :: vs).map (renderVal o)))
+        (writeFile o rs) [] w.lt_ne hcontent
+      have hw : writeFile o ((v :: vs) :: rs)
+          = (o.ls ++ joinFields o.ft ((v :: vs).map (renderVal o))) ++ o.lt ++ writeFile o rs := by
+        simp [writeFile, writeRow]
+      rw [hw, hs]
+      have hp := parseLine_row o w v vs hvr
+      simp only [writeRow] at hp
+      simp only [List.reverse_nil, List.nil_append, readLines, hp]
+      have hih := ih (fun r hr => hlen r (by simp [hr])) (fun r hr => hv r (by simp [hr]))
+      rw [hih]
+      have := rowOf_decoded o (v :: vs) hvr
+      rw [hr] at this
+      simp only [List.map_cons] at this
+      simp [specRows, this]
+
+theorem anyVal_false (p : Bytes → Bool) (rows : List (List Val)) (h : ¬ anyVal p rows = true) :
+    ∀ r ∈ rows, ∀ v ∈ r, ∀ b, valBytes v = some b → p b = false := by
+  intro r hr v hv b hb
+  cases hp : p b with
+  | false => rfl
+  | true =>
+    exfalso; apply h
+    simp only [anyVal, List.any_eq_true]
+    exact ⟨r, hr, v, hv, by simp [hb, hp]⟩
+
+theorem plain_of_region (o : Opts) (rows : List (List Val)) (h : region o rows = none) :
+    ∀ r ∈ rows, ∀ x ∈ r, PlainVal o x := by
+  by_cases h1 : rNullSpelling rows = true
+  · simp [region, h1] at h
+  by_cases h2 : rLineTerm o rows = true
+  · simp [region, h1, h2] at h
+  by_cases h3 : rEscape o rows = true
+  · simp [region, h1, h2, h3] at h
+  by_cases h4 : rEnclosure o rows = true
+  · simp [region, h1, h2, h3, h4] at h
+  by_cases h5 : rFieldTerm o rows = true
+  · simp [region, h1, h2, h3, h4, h5] at h
+  intro r hr v hv b hb
+  have a1 := anyVal_false _ rows h1 r hr v hv b hb
+  have a2 := anyVal_false _ rows h2 r hr v hv b hb
+  have a3 := anyVal_false _ rows h3 r hr v hv b hb
+  have a4 := anyVal_false _ rows h4 r hr v hv b hb
+  simp only [beq_eq_false_iff_ne, ne_eq] at a1
+  refine ⟨fun x hx => ⟨?_, ?_, ?_, ?_⟩, a1⟩
+  · intro he
+    have : (o.enc.any b.contains) = true := List.any_eq_true.mpr ⟨x, he, by simpa using hx⟩
+    rw [a4] at this; exact Bool.false_ne_true this
+  · intro he
+    have : (o.esc.any b.contains) = true := List.any_eq_true.mpr ⟨x, he, by simpa using hx⟩
+    rw [a3] at this; exact Bool.false_ne_true this
+  · intro he
+    have : b.contains (o.lt.headD 0) = true := by rw [← he]; simpa using hx
+    rw [a2] at this; exact Bool.false_ne_true this
+  · intro he
+    cases hen : enclosed o v with
+    | true => rfl
+    | false =>
+      exfalso; apply h5
+      simp only [rFieldTerm, List.any_eq_true]
+      refine ⟨r, hr, v, hv, ?_⟩
+      rw [hen, hb]
+      simp only [Bool.not_false, Bool.true_and]
+      rw [← he]; simpa using hx
+
 end Gms.Outfile
+
+/-! ## Property theorems -/
+namespace Gms.C50
+open Gms.Outfile
+
+/-- Facts regenerated from the source on this run: the option defaults (shared by `NewInto` and
+`NewLoadData`), the escape-sequence table of `parseFields` (every entry agrees with the model's
+`unesc`, the default clause copies the byte), the spellings `parseFields` treats specially, the
+NULL spellings and the single `strings.Replace` call of `buildInto`. -/
+theorem facts_match :
+    Generated.C50.defaultFieldsTerminatedBy = [9] ∧ Generated.C50.defaultFieldsEnclosedBy = [] ∧
+    Generated.C50.defaultFieldsEscapedBy = [92] ∧ Generated.C50.defaultLinesStartingBy = [] ∧
+    Generated.C50.defaultLinesTerminatedBy = [10] ∧ Generated.C50.defaultFieldsEnclosedByOpt = false ∧
+    Generated.C50.loadDataDefaults = ["FieldsEnclosedBy=defaultFieldsEnclosedBy",
+      "FieldsEnclosedByOpt=defaultFieldsEnclosedByOpt", "FieldsEscapedBy=defaultFieldsEscapedBy",
+      "FieldsTerminatedBy=defaultFieldsTerminatedBy", "LinesStartingBy=defaultLinesStartingBy",
+      "LinesTerminatedBy=defaultLinesTerminatedBy"] ∧
+    (∀ e ∈ Generated.C50.unescTable, unesc e.1 = e.2) ∧
+    Generated.C50.unescTable.map (·.1) = [78, 90, 48, 110, 116, 114, 98] ∧
+    Generated.C50.unescDefaultIsIdentity = true ∧
+    Generated.C50.fieldSpecialSpellings = ["", "NULL"] ∧
+    Generated.C50.writerReplaceArgs = ["strVal", "n.LinesTerminatedBy", "n.FieldsEscapedBy + n.LinesTerminatedBy", "-1"] ∧
+    Generated.C50.writerNullSpellings = ["NULL", "%sN"] := by
+  decide
+
+/-- The model's escape table is total: outside the extracted keys a byte is copied. -/
+theorem unesc_default (c : UInt8) (h : c ∉ Generated.C50.unescTable.map (·.1)) : unesc c = [c] := by
+  simp [Generated.C50.unescTable] at h
+  simp [unesc, h]
+
+/-- The option set both statements use when no FIELDS/LINES clause is given (regenerated). -/
+def generatedDefaults : Opts where
+  ft := Generated.C50.defaultFieldsTerminatedBy
+  enc := Generated.C50.defaultFieldsEnclosedBy
+  encOpt := Generated.C50.defaultFieldsEnclosedByOpt
+  esc := Generated.C50.defaultFieldsEscapedBy
+  lt := Generated.C50.defaultLinesTerminatedBy
+  ls := Generated.C50.defaultLinesStartingBy
+
+/-- The option defaults are an unambiguous option set. -/
+theorem defaults_wf : optsWF generatedDefaults = true := by decide
+
+/-
+Full statement — FALSE for the code as it is (see `finding_*` below):
+  theorem load_outfile (o) (n) (rows) (ho : optsWF o = true) (hn : 0 < n) (hlen : ∀ r ∈ rows, r.length = n) :
+      roundTrip o n rows = specRows rows
+-/
+
+/-- Round trip, guarded: for every unambiguous option set and all rows (any number, any width
+≥ 1, any values) in which no value contains a delimiter byte (first byte of the line or field
+terminator, enclosure, escape) or is the spelling `NULL`, `LOAD DATA` applied to the bytes written
+by `INTO OUTFILE` gives back exactly the rows, NULLs and empty strings included. -/
+theorem impl_roundtrip_partial (o : Opts) (n : Nat) (rows : List (List Val))
+    (ho : optsWF o = true) (hn : 0 < n) (hlen : ∀ r ∈ rows, r.length = n)
+    (hreg : region o rows = none) :
+    roundTrip o n rows = specRows rows :=
+  readFile_writeFile o (wf_of_optsWF o ho) n hn rows hlen (plain_of_region o rows hreg)
+
+def csv : Opts := { ft := [44], enc := [34], encOpt := true, esc := [92], lt := [10], ls := [] }
+def dflt : Opts := { ft := [9], enc := [], encOpt := false, esc := [92], lt := [10], ls := [] }
+
+/-- Non-vacuity: a concrete case satisfying all hypotheses of `impl_roundtrip_partial` with NULLs,
+an empty string, numbers, two rows; and the bytes the model writes for it. -/
+example : optsWF csv = true ∧ region csv [[.num [49], .text [97, 32, 98], .null], [.num [50], .text [], .num [55]]] = none
+    ∧ writeFile csv [[.num [49], .text [97, 32, 98], .null], [.num [50], .text [], .num [55]]]
+        = [49, 44, 34, 97, 32, 98, 34, 44, 92, 78, 10, 50, 44, 34, 34, 44, 55, 10]
+    ∧ roundTrip csv 3 [[.num [49], .text [97, 32, 98], .null], [.num [50], .text [], .num [55]]]
+        = [[some [49], some [97, 32, 98], none], [some [50], some [], some [55]]] := by
+  decide
+
+/-- Non-vacuity of the enclosed case: a value containing the field terminator is outside every
+region when it is written enclosed, and it does come back. -/
+example : region csv [[.text [97, 44, 98], .num [56]]] = none
+    ∧ roundTrip csv 2 [[.text [97, 44, 98], .num [56]]] = [[some [97, 44, 98], some [56]]] := by decide
+
+/-! ### Findings: the unchanged writer escapes nothing but the line terminator (F-C50-a) -/
+
+/-- A value containing the field terminator, not enclosed: split into two fields. -/
+theorem finding_value_contains_field_terminator :
+    ∃ o n rows, optsWF o = true ∧ (∀ r ∈ rows, r.length = n) ∧
+      region o rows = some "value_contains_field_terminator" ∧ roundTrip o n rows ≠ specRows rows :=
+  ⟨{ dflt with ft := [44] }, 2, [[.text [97, 44, 98], .num [56]]], by decide⟩
+
+/-- A value containing the enclosure followed by the field terminator: the field ends early. -/
+theorem finding_value_contains_enclosure :
+    ∃ o n rows, optsWF o = true ∧ (∀ r ∈ rows, r.length = n) ∧
+      region o rows = some "value_contains_enclosure" ∧ roundTrip o n rows ≠ specRows rows :=
+  ⟨csv, 2, [[.text [120, 34, 44, 121], .num [56]]], by decide⟩
+
+/-- A value containing the escape character: the reader drops it (`back\slash` ↦ `backslash`). -/
+theorem finding_value_contains_escape :
+    ∃ o n rows, optsWF o = true ∧ (∀ r ∈ rows, r.length = n) ∧
+      region o rows = some "value_contains_escape" ∧ roundTrip o n rows ≠ specRows rows :=
+  ⟨dflt, 1, [[.text [97, 92, 115]]], by decide⟩
+
+/-- A value containing the line terminator: written as escape + terminator, but the reader
+splits lines before it looks at escapes. -/
+theorem finding_value_contains_line_terminator :
+    ∃ o n rows, optsWF o = true ∧ (∀ r ∈ rows, r.length = n) ∧
+      region o rows = some "value_contains_line_terminator" ∧ roundTrip o n rows ≠ specRows rows :=
+  ⟨dflt, 1, [[.text [97, 10, 98]]], by decide⟩
+
+/-- The string `NULL` comes back as SQL NULL (also when it was written enclosed). -/
+theorem finding_value_is_null_spelling :
+    ∃ o n rows, optsWF o = true ∧ (∀ r ∈ rows, r.length = n) ∧
+      region o rows = some "value_is_null_spelling" ∧ roundTrip o n rows ≠ specRows rows :=
+  ⟨csv, 1, [[.text [78, 85, 76, 76]]], by decide⟩
+
+/-- What the writer does to the line terminator inside a value, and what the reader makes of it. -/
+example : writeFile dflt [[.text [97, 10, 98]]] = [97, 92, 10, 98, 10]
+    ∧ readFile dflt 1 [97, 92, 10, 98, 10] = [[some [97, 92]], [some [98]]] := by decide
+
+end Gms.C50
